@@ -137,6 +137,8 @@ def canonical(desc, v):
 
 
 def run(ctx, model):
+    from props import logixdrv
+    logixdrv.run_writes(ctx, model, "C02")
     from props import kernels
     kernels.run_masks(ctx, model, "C02")
     kernels.run_boolwin(ctx, model, "C02")
